@@ -181,7 +181,10 @@ def random_ratio_cases(ex, tier, seed, rep, stats):
             rep.violation('abserr-negative:random', dict(case=name), '%s: negative error estimate' % name)
         # the same sequence as a plain 1-d array (one column alone) must give that column
         try:
+            keep_new, keep_err = np.array(new, copy=True), np.array(err, copy=True)
             new1, err1, _ = obj(np.asarray(seq), np.abs(h))
+            if not (np.array_equal(new, keep_new, equal_nan=True) and np.array_equal(err, keep_err, equal_nan=True)):
+                rep.violation('result-overwritten:random', dict(case=name), '%s: the arrays returned by one call were changed by the next call of the same object' % name)
             if np.shape(new1) != (S - nt,) or np.abs(np.asarray(new1) - new[:, 0]).max() > tol2:
                 rep.violation('one-dimensional:random', dict(case=name, got=[complex(z) for z in np.ravel(new1)], column=[complex(z) for z in new[:, 0]]),
                               '%s: the sequence given as a 1-d array is mapped to %s, as a column of a matrix to %s' % (name, np.ravel(new1).tolist(), new[:, 0].tolist()))
